@@ -10,12 +10,14 @@ def _ob(name, module, factory, kwargs, **extra):
 def k_batch(tier):
     q = [
         _ob("K-batch/count/N3/G1", "harness.k_batch", "k_batch", dict(N=3, G=1, mode="count", states=2)),
-        _ob("K-batch/time/N3/G1", "harness.k_batch", "k_batch", dict(N=3, G=1, mode="time", states=2)),
-        _ob("K-batch/both/N2/G2", "harness.k_batch", "k_batch", dict(N=2, G=2, mode="both", states=3)),
+        _ob("K-batch/time/N3/G1", "harness.k_batch", "k_batch", dict(N=3, G=1, mode="time", states=2, active_max=1)),
+        _ob("K-batch/both/N2/G2", "harness.k_batch", "k_batch", dict(N=2, G=2, mode="both", states=3, active_max=1)),
     ]
     if tier == "quick":
         return q
     return q + [
+        _ob("K-batch/time/N3/G1/active2", "harness.k_batch", "k_batch", dict(N=3, G=1, mode="time", states=2, active_max=2)),
+        _ob("K-batch/both/N2/G2/active2", "harness.k_batch", "k_batch", dict(N=2, G=2, mode="both", states=3, active_max=2)),
         _ob("K-batch/count/N3/G2", "harness.k_batch", "k_batch", dict(N=3, G=2, mode="count", states=2)),
     ]
 
